@@ -687,7 +687,7 @@ def run(ck):
   # the other streams of C02 do not move (ck.count may still draw from ck.rng for the evidence samples)
   import random
   rng = random.Random(f'{ck.seed}:{getattr(ck, "pid", "C02")}:callgraph:{ck.tier}')
-  n = 240 if ck.tier == 'quick' else 3000
+  n = 240 if ck.tier == 'quick' else 1000
   designs = list(DIRECTED)
   for _ in range(n):
     src, name, variant = gen_design(rng, next(_uid))
